@@ -40,7 +40,8 @@ def do_mean(pixels, z_pixels, num_zones, nodata, z_nodata, out_dtype=np.float32)
             for cl in range(nc):
                 pix = pixels[tix, rw, cl]
                 z_idx = z_pixels[rw, cl]
-                if (pix != nodata) and (z_idx != z_nodata):
+                # a NaN pixel is never valid (pix != nodata cannot tell when nodata itself is NaN)
+                if (pix != nodata) and (pix == pix) and (z_idx != z_nodata):
                     acc[z_idx, 0] += pix
                     acc[z_idx, 1] += 1
 
